@@ -25,6 +25,7 @@ import (
 
 	"github.com/prometheus/client_golang/prometheus"
 	"github.com/prometheus/client_golang/prometheus/promhttp"
+	_ "github.com/prometheus/client_golang/prometheus/promhttp/zstd"
 	"github.com/prometheus/client_golang/prometheus/testutil"
 	dto "github.com/prometheus/client_model/go"
 
@@ -508,7 +509,12 @@ func runChild(c *cli.Ctx) error {
 						events = append(events, ev)
 						evMu.Unlock()
 					case 20:
-						if resp, err := client.Get(srv.URL); err == nil {
+						// scrapes with every offered compression, overlapping with each other
+						req, _ := http.NewRequest("GET", srv.URL, nil)
+						if enc := []string{"", "gzip", "zstd"}[rr.Intn(3)]; enc != "" {
+							req.Header.Set("Accept-Encoding", enc)
+						}
+						if resp, err := client.Do(req); err == nil {
 							io.Copy(io.Discard, resp.Body)
 							resp.Body.Close()
 						}
